@@ -17,10 +17,14 @@
     `Locals::get` / `Trees::sync` / `Locals::put`, the complete case analysis of `get_local`
     (`getLocal_cases`), and the counting argument that a failing `get_local` leaves an
     unreserved tree with a positive counter whenever a frame is free.
+
+  * `sync_steal_matches_source` — `Tree::sync_steal` is re-derived from the Rust source on every
+    run (`tools/rs2lean.py`, `Gen/Tree.lean`) and proved equal to the model's transition.
 -/
 import LLFreeV.Model.Upper
 import LLFreeV.Proofs.UpperSingle
 import LLFreeV.Props.C06
+import LLFreeV.Proofs.GenTree
 namespace LLFree.C11
 open LLFree
 
@@ -68,5 +72,11 @@ theorem single_of_one_slot (c : Cfg) (m : Mem) (hs : m.slots.size = 1) (s : Nat)
 
 /-- the premises are satisfiable: the tiny one-class one-slot allocator of C06 -/
 example : C06.cTiny.slotRange 0 = some (0, 1) ∧ (1 : Nat) < C06.cTiny.ntrees ∧ C06.mTiny.slots.size = 1 := by decide
+
+/-- **`Tree::sync_steal` of the model is the one of the current source** (`Gen/Tree.lean`, regenerated
+    from `core/src/trees.rs` on every run) — including the boundary `free >= min` that F8 was about. -/
+theorem sync_steal_matches_source (self : Tree) (min : Nat) :
+    GenTree.Sim (GenTree.ofRO (Gen.T.syncSteal self min)) (Upd.ofOption (Tree.syncSteal self min)) :=
+  GenTree.syncSteal_eq self min
 
 end LLFree.C11
